@@ -990,6 +990,13 @@ class Evaluator:
             if base[2][0] == 'const' and k[0] == 'const':
                 return self.lookup(base[1], k)
             return alt(base[3], self.lookup(base[1], k)) if k[0] != 'const' else ('sub', base, k)
+        if b == 'mut' and self._is_mapping(base):
+            r = self.lookup(base[1], k)
+            if base[2] in ('update',) and base[3]:
+                r = alt(r, self.lookup(base[3][0], k))
+            if base[2] == 'setdefault' and len(base[3]) == 2:
+                r = alt(r, base[3][1])
+            return r
         if b == 'seq' and k[0] == 'const' and isinstance(k[1], int):
             return self.index(base, k[1])
         if b == 'record' and k[0] == 'const' and isinstance(k[1], int):
